@@ -223,7 +223,8 @@ impl ClaimData {
             }
             SCALAR => {
                 // Scalar::from_be_hex reads 64 hex digits and panics on anything else
-                if rest.len() < 64 || !rest.as_bytes()[..64].iter().all(u8::is_ascii_hexdigit) {
+                // (fewer or non-hex characters; more than 64 in debug builds)
+                if rest.len() != 64 || !rest.as_bytes().iter().all(u8::is_ascii_hexdigit) {
                     return Err(Error::InvalidClaimData(
                         "unable to deserialize scalar claim hex string",
                     ));
